@@ -184,10 +184,43 @@ def gen_builder_session(rng, n):
     return ops
 
 
+def gen_compiler_session(rng, n):
+    """never calls add_func while a function is open (the model's `end_func` is tied for such histories only)"""
+    ops = ["c reset"]
+    isopen = False
+    for _ in range(n):
+        r = rng.random()
+        m = rng.random()
+        mask = (1 << rng.randrange(0, 8)) if m < 0.5 else (rng.randrange(0, 256) if m < 0.6 else 0)
+        if r < 0.30:
+            ops.append("c %x reg %d" % (mask & 7, rng.randrange(0, 2)))
+        elif r < 0.50:
+            if isopen:
+                ops.append("c 0 endfunc")
+                isopen = False
+            else:
+                ops.append("c %x func %d" % (mask, rng.choice((0, 1, 2, 4))))
+                ops.append("c 0 func 0" if False else ops.pop())
+                # whether it opened is only known from the answer: close defensively before the next func
+                isopen = None
+        elif r < 0.60:
+            ops.append("c 0 endfunc")
+            isopen = False
+        elif r < 0.80:
+            ops.append("c %x emit %d" % (mask & 1, rng.choice((0, 1, 3))))
+        else:
+            ops.append("c %x invoke %d" % (mask & 3, rng.choice((0, 1, 3))))
+        if isopen is None:
+            # a faulted func may or may not have opened a function: an `endfunc` answers InvalidState in the latter case
+            ops.append("c 0 endfunc")
+            isopen = False
+    return ops
+
+
 def split_sessions(ops):
     out, cur = [], []
     for o in ops:
-        if o in ("o reset", "b reset") and cur:
+        if o in ("o reset", "b reset", "c reset") and cur:
             out.append(cur)
             cur = []
         cur.append(o)
@@ -197,7 +230,7 @@ def split_sessions(ops):
 
 
 def mon_lines(ops, impl):
-    return [("mb " if o.startswith("b ") else "m ") + o[2:] + " => " + a for o, a in zip(ops, impl)]
+    return [("mb " if o.startswith("b ") else "mc " if o.startswith("c ") else "m ") + o[2:] + " => " + a for o, a in zip(ops, impl)]
 
 
 def ops_stage(res, h, ops, dist):
@@ -229,7 +262,7 @@ def ops_stage(res, h, ops, dist):
     bad = [i for i, m in enumerate(mon) if m != "good"]
     if bad or len(mon) != len(ops):
         i = bad[0] if bad else len(mon)
-        sess_start = max(j for j in range(i + 1) if ops[j] in ("o reset", "b reset"))
+        sess_start = max(j for j in range(i + 1) if ops[j] in ("o reset", "b reset", "c reset"))
         sess = ops[sess_start:i + 1]
 
         def is_bad(c):
@@ -245,7 +278,7 @@ def ops_stage(res, h, ops, dist):
     d = vlib.first_diff(impl, model)
     # a correspondence difference is reported unless a monitor violation at or before that line already explains it
     if d is not None and (not bad or d < bad[0]):
-        sess_start = max(j for j in range(d + 1) if ops[j] in ("o reset", "b reset"))
+        sess_start = max(j for j in range(d + 1) if ops[j] in ("o reset", "b reset", "c reset"))
         res.violation("correspondence: model and real code differ at op %r: impl=%s model=%s (the monitor accepts the real code's answers)" % (
             ops[d], impl[d][:300] if d < len(impl) else "-", model[d][:300] if d < len(model) else "-"),
             {"ops": ops[sess_start:d + 1], "correspondence": "Model/Fault.lean step vs harness/c15.cpp ops_step"}, found_input=False, key="corr")
@@ -403,6 +436,8 @@ def run(res):
         ops += gen_session(rng, rng.choice((10, 25, 45))) if i % 3 else gen_retry_session(rng, rng.choice((6, 12)))
         if i % 4 == 0:
             ops += gen_builder_session(rng, rng.choice((15, 40)))
+        if i % 4 == 2:
+            ops += gen_compiler_session(rng, rng.choice((15, 40)))
     ops_ok = ops_stage(res, h, ops, dist)
     # the assembler workload's shape at the level of the model: every request of the program fails once, the failed call is
     # repeated; model = real code on every line, and every session must end in the failure-free state (runRetry_eq_specRun)
